@@ -64,6 +64,9 @@ impl Op {
     pub fn needs_receiver(&self) -> bool {
         self.is_recv() || matches!(self, Op::CloseR | Op::CloneR(_) | Op::DropR | Op::ConvR | Op::IsDisconnectedR | Op::IsTerminated)
     }
+    pub fn is_observer(&self) -> bool {
+        matches!(self, Op::Len | Op::IsEmpty | Op::IsFull | Op::SenderCount | Op::ReceiverCount | Op::IsClosed | Op::IsTerminated | Op::IsDisconnectedS | Op::IsDisconnectedR)
+    }
     pub fn may_block(&self) -> bool {
         matches!(self, Op::Send | Op::SendTimeout(_) | Op::SendOptTimeout(_) | Op::ASend | Op::ASendDrop(_) | Op::Recv | Op::RecvTimeout(_) | Op::ARecv | Op::ARecvDrop(_) | Op::StreamNext)
     }
@@ -280,6 +283,106 @@ impl<T: Payload> ThreadCtx<T> {
         debug_assert!(made.is_none());
         self.log.push(Event { th: self.th, idx, op, tag, t0, t1, res, polls, reg_t });
         Some(self.log.len() - 1)
+    }
+
+    /// Executes a short script of NON-BLOCKING calls back to back: everything the recorder needs (payloads, ids) is
+    /// prepared beforehand and written down afterwards, so that between two channel calls there is one clock read
+    /// and nothing else. Multi-step windows inside the channel that are only tens of nanoseconds wide (an observer
+    /// that looks at the channel twice) need two calls of a peer to land inside them; with the ordinary per-call
+    /// bookkeeping (~150 ns) between them they never do. Each call is still its own event: [t_i, t_{i+1}].
+    pub fn exec_tight(&mut self, ops: &[Op]) {
+        if ops.iter().any(|o| o.may_block()) || ops.len() > 8 || self.keep_one {
+            for o in ops {
+                self.exec(*o);
+            }
+            return;
+        }
+        let n = ops.len();
+        let mut made: Vec<Option<T>> = Vec::with_capacity(n);
+        let mut tags: Vec<Option<Tag>> = Vec::with_capacity(n);
+        let mut idxs: Vec<u32> = Vec::with_capacity(n);
+        for op in ops {
+            idxs.push(self.idx);
+            self.idx += 1;
+            if op.is_send() {
+                let (v, t) = self.mk();
+                made.push(Some(v));
+                tags.push(Some(t));
+            } else {
+                made.push(None);
+                tags.push(None);
+            }
+        }
+        let mut ts: Vec<u64> = Vec::with_capacity(n + 1);
+        let mut rs: Vec<Option<Res>> = Vec::with_capacity(n);
+        let mut polls = 0u32;
+        if let Some(s) = self.status {
+            s.enter(false, opid(self.th, idxs[0]));
+        }
+        for i in 0..n {
+            ts.push(now());
+            payload::set_cur_op(opid(self.th, idxs[i]));
+            rs.push(if self.has_for(ops[i]) { Some(self.run(ops[i], &mut made[i], &mut polls)) } else { None });
+        }
+        ts.push(now());
+        payload::set_cur_op(0);
+        if let Some(s) = self.status {
+            s.leave();
+        }
+        for i in 0..n {
+            match rs[i].take() {
+                Some(res) => self.log.push(Event { th: self.th, idx: idxs[i], op: ops[i], tag: tags[i], t0: ts[i], t1: ts[i + 1], res, polls: 0, reg_t: None }),
+                None => {
+                    // skipped for lack of a handle: the prepared value was never given to the channel
+                    drop(made[i].take());
+                }
+            }
+        }
+    }
+
+    /// Calls one observer over and over with nothing but two clock reads between calls, until `done()` says that
+    /// the other threads are finished (plus a few more calls), and records each maximal run of equal answers as ONE
+    /// event spanning the run (weaker than the single observations, hence never a false alarm).
+    pub fn exec_spin(&mut self, op: Op, done: &dyn Fn() -> bool) {
+        if !op.is_observer() || !self.has_for(op) {
+            return;
+        }
+        let mut cur: Option<Event> = None;
+        let mut none: Option<T> = None;
+        let mut polls = 0u32;
+        let mut tail = 0u32;
+        let mut calls = 0u64;
+        loop {
+            let t0 = now();
+            let res = self.run(op, &mut none, &mut polls);
+            let t1 = now();
+            calls += 1;
+            match &mut cur {
+                Some(e) if e.res == res => e.t1 = t1,
+                _ => {
+                    if let Some(e) = cur.take() {
+                        self.log.push(e);
+                    }
+                    let idx = self.idx;
+                    self.idx += 1;
+                    cur = Some(Event { th: self.th, idx, op, tag: None, t0, t1, res, polls: 0, reg_t: None });
+                }
+            }
+            if calls & 7 == 0 || tail > 0 {
+                if tail > 0 || done() {
+                    tail += 1;
+                    if tail > 16 {
+                        break;
+                    }
+                }
+                if calls > 2_000_000 || self.log.len() > 4000 {
+                    break;
+                }
+            }
+        }
+        if let Some(e) = cur.take() {
+            self.log.push(e);
+        }
     }
 
     fn run(&mut self, op: Op, made: &mut Option<T>, polls: &mut u32) -> Res {
